@@ -5593,7 +5593,7 @@ func (t *Terminal) Loop() error {
 				if len(t.input) == 0 {
 					req(reqQuit)
 				} else {
-					t.yanked = t.input
+					t.yanked = copySlice(t.input)
 					t.input = []rune{}
 					t.cx = 0
 				}
